@@ -224,8 +224,17 @@ def gen_leaf(rng, is_prop, nodes):
     return ("in", rng.sample(pool, rng.randint(0, 5)))
 
 
+LANG_LITS = [l for l in LITERALS if l.language]
+THEMES = {
+    "languagein": LANG_LITS + [L("a"), L("5", XSD.integer)],
+    "uniquelang": LANG_LITS + [L("x", lang="en"), L("y", lang="en-us"), L("z", lang="fr")],
+    "pattern": [l for l in LITERALS if l.value is not None and isinstance(l.value, str)] + [L("1", XSD.integer)],
+}
+
+
 def gen_case(rng):
     data, nodes = gen_data(rng)
+    iri_nodes = [n for n in nodes if isinstance(n, URIRef)]
     shapes = []
     for i in range(rng.randint(1, 3)):
         is_prop = rng.random() < 0.6
@@ -235,7 +244,7 @@ def gen_case(rng):
         t = s["targets"]
         r = rng.random()
         if r < 0.5:
-            t["nodes"] = rng.sample([n for n in nodes if isinstance(n, URIRef)], rng.randint(1, 2))
+            t["nodes"] = rng.sample(iri_nodes, rng.randint(1, 2))
             if not is_prop and rng.random() < 0.5:
                 t["nodes"].append(rng.choice(LITERALS))
         elif r < 0.8:
@@ -249,11 +258,20 @@ def gen_case(rng):
                 continue
             used.add(c[0])
             s["comps"].append(c)
+            # make the component see value nodes of the kinds that matter to it
+            pool = THEMES.get(c[0])
+            if c[0] in ("minexcl", "minincl", "maxexcl", "maxincl") and rng.random() < 0.6:
+                pool = [l for l in LITERALS if type(l.value) is type(c[1][0].value)] or None
+            if pool and path is not None and path[0] == "pred":
+                for _ in range(rng.randint(1, 3)):
+                    data.add((rng.choice(iri_nodes), URIRef(path[1]), rng.choice(pool)))
+            elif pool and path is None and rng.random() < 0.7:
+                t["nodes"] = list(t["nodes"]) + rng.sample(pool, min(2, len(pool)))
         shapes.append(s)
     # closed shapes with property shapes
     if rng.random() < 0.35:
         s = S.new_shape(EX.Closed, None)
-        s["targets"]["nodes"] = rng.sample([n for n in nodes if isinstance(n, URIRef)], 1)
+        s["targets"]["nodes"] = rng.sample(iri_nodes, 1)
         props = []
         for j in range(rng.randint(0, 2)):
             ps = S.new_shape(BNode("cp%d" % j), ("pred", rng.choice(PREDS)) if rng.random() < 0.8 else ("inv", ("pred", rng.choice(PREDS))))
